@@ -299,15 +299,44 @@ def _codec_is_utf8(codec):
     return isinstance(codec, str) and codec.lower().replace("_", "-") in ("utf-8", "utf8")
 
 
+def utf8_scalar(b, n):
+    """(well-formed, code point) of the first n bytes b[0..n-1] read as ONE UTF-8 sequence (Unicode 15, table 3-7:
+    no overlong forms, no surrogates, nothing above U+10FFFF).  Dual use: plain ints or symbolic ints."""
+    def cont(x, lo=0x80, hi=0xBF):
+        return both(lo <= x, x <= hi)
+
+    if n == 1:
+        return both(0 <= b[0], b[0] <= 0x7F), b[0]
+    if n == 2:
+        return both(0xC2 <= b[0], b[0] <= 0xDF, cont(b[1])), (b[0] - 0xC0) * 64 + (b[1] - 0x80)
+    if n == 3:
+        second = either(both(b[0] == 0xE0, cont(b[1], lo=0xA0)), both(b[0] == 0xED, cont(b[1], hi=0x9F)),
+                        both(0xE1 <= b[0], b[0] <= 0xEF, neg(b[0] == 0xED), cont(b[1])))
+        return both(second, cont(b[2])), (b[0] - 0xE0) * 4096 + (b[1] - 0x80) * 64 + (b[2] - 0x80)
+    if n == 4:
+        second = either(both(b[0] == 0xF0, cont(b[1], lo=0x90)), both(b[0] == 0xF4, cont(b[1], hi=0x8F)), both(0xF1 <= b[0], b[0] <= 0xF3, cont(b[1])))
+        return both(second, cont(b[2]), cont(b[3])), (b[0] - 0xF0) * 262144 + (b[1] - 0x80) * 4096 + (b[2] - 0x80) * 64 + (b[3] - 0x80)
+    raise ValueError(n)
+
+
 def decode_lenient(st, t, errors):
     """bytes.decode('utf-8', 'ignore' | 'replace'): never raises; yields a str of at most len(t) characters
-    (every character consumes at least one byte); with 'replace' a non-empty input gives a non-empty result.
+    (every character consumes at least one byte); with 'replace' a non-empty input gives a non-empty result; and an
+    input that is exactly ONE well-formed UTF-8 sequence of 1..4 bytes (utf8_scalar) decodes to exactly the one
+    character with that code point.  Nothing else is stated about the content.
     The result is a fresh str text tagged `decoded_from = t`, `decode_errors = errors`."""
+    from .text import char_ord
+
     d = SText("str", st.fresh_int("decoded_len"), st.fresh_name("decoded"))
     ln = V._z(t.length)
     st.assume(z3.And(d.length.e >= 0, d.length.e <= ln))
     if errors == "replace":
         st.assume(z3.Implies(ln > 0, d.length.e > 0))
+    bs = [t.get(j) for j in range(4)]
+    first = char_ord(d.get(0))
+    for n in (1, 2, 3, 4):
+        wf, cp = utf8_scalar(bs, n)
+        st.assume(implies(both(mk_bool(ln == n), wf), both(mk_bool(d.length.e == 1), first == cp)))
     d.decoded_from = t
     d.decode_errors = errors
     return d
@@ -449,4 +478,22 @@ def xcheck_textops():
                 continue
             if len(d) > len(b) or (errors == "replace" and b and not d):
                 bad.append(("decode", b, errors, d))
+    # one well-formed UTF-8 sequence decodes to exactly its scalar value, under both handlers (utf8_scalar, decode_lenient)
+    edge = (0x7F, 0x80, 0x8F, 0x90, 0x9F, 0xA0, 0xBF, 0xC0)
+    cases = [(b0,) for b0 in range(256)] + [(b0, b1) for b0 in range(0xC0, 0xE0) for b1 in range(256)]
+    cases += [(b0, b1, b2) for b0 in range(0xE0, 0xF0) for b1 in range(256) for b2 in edge]
+    cases += [(b0, b1, b2, b3) for b0 in range(0xF0, 0xF6) for b1 in range(256) for b2 in (0x7F, 0x80, 0xBF, 0xC0) for b3 in (0x7F, 0x80, 0xBF, 0xC0)]
+    for bs in cases:
+        n += 1
+        wf, cp = utf8_scalar(list(bs), len(bs))
+        raw = bytes(bs)
+        try:
+            strict = raw.decode("utf-8")
+            really = len(strict) == 1
+        except UnicodeDecodeError:
+            strict, really = None, False
+        if bool(wf) != really:
+            bad.append(("utf8-well-formed", raw, bool(wf), really))
+        elif wf and not (ord(strict) == cp and raw.decode("utf-8", "ignore") == strict and raw.decode("utf-8", "replace") == strict):
+            bad.append(("utf8-scalar", raw, cp))
     return (not bad, f"{len(bad)} mismatches: {bad[:4]}" if bad else f"text-operation models agree with CPython on {n} cases")
